@@ -242,11 +242,15 @@ PROPS = {
     ),
     "C18": dict(
         engines=[dict(name="rolloutsm", quick=1200, thorough=60000, shard=400, trivial_tags=["no-change", "status-not-written"]),
-                 dict(name="brexec", quick=600, thorough=30000, shard=400, trivial_tags=["status-unchanged"])],
-        rule="rolloutsm and brexec engines with deleting objects in every phase, with and without finalizer",
-        trusted=["hooks VerifNewReconciler"],
-        assumptions=["the TrafficRouting controller's finalizer (candidate finding F7) is not yet modelled: see level_note"],
-        explanation="finalizer-guard theorems for Rollout and BatchRelease controllers; guard clauses on the implementation",
+                 dict(name="brexec", quick=600, thorough=30000, shard=400, trivial_tags=["status-unchanged"]),
+                 dict(name="trctl", quick=800, thorough=30000, shard=400, trivial_tags=[])],
+        rule="rolloutsm and brexec engines with deleting objects in every phase, with and without finalizer; trctl engine: TrafficRouting objects in every persisted phase, live or "
+             "deleting, with / without the controller's finalizer and finalizers of progressing Rollouts, network states (stable Service present / missing, canary Ingress absent / "
+             "this / another strategy), pending or elapsed grace expectations, zero grace, and an injected failure of the gateway read; one real TrafficRoutingReconciler.Reconcile",
+        trusted=["hooks VerifNewReconciler (rollout, batchrelease, trafficrouting controllers)"],
+        assumptions=["faults between teardown calls are covered as 'any persisted state' plus an injected gateway error (TrafficRouting) -- not as errors at every API call"],
+        explanation="finalizer-guard theorems for the Rollout, BatchRelease and TrafficRouting controllers (plus 'deletion is not blocked' for TrafficRouting); guard clauses on "
+                    "the implementation",
     ),
     "C11": dict(
         engines=[dict(name="brexec", quick=1200, thorough=60000, shard=400, trivial_tags=["status-unchanged"])],
@@ -272,7 +276,7 @@ PROPS = {
     ),
 }
 
-HOOK_COMMITS = ["bf5febd", "cd696c4", "9ed478c", "e2da513"]
+HOOK_COMMITS = ["bf5febd", "cd696c4", "9ed478c", "e2da513", "a1cf379"]
 NOT_APPLICABLE = []
 
 MANIFEST_TEXT = {
@@ -428,9 +432,11 @@ MANIFEST_TEXT = {
         design_ref="DESIGN.md section 9, C17"),
     "C18": dict(
         text="Proof: the Rollout controller drops its finalizer only when the Terminating condition already reports Completed, the BatchRelease controller only for a deleting "
-             "object in phase Completed (which C11 ties to a successful Finalize). Both reconcile models are compared with the real reconcilers on deleting objects in every phase.",
-        note="Partial: the TrafficRouting controller (candidate finding F7: finalizer removed before cleanup) is not modelled yet; faults between teardown calls are covered "
-             "only as 'any persisted state'.",
+             "object in phase Completed (which C11 ties to a successful Finalize), the TrafficRouting controller only in a reconcile of a deleting object whose traffic cleanup "
+             "completed without error (the canary route is gone when the finalizer goes) -- and that controller does drop it once the gateway is restored and the grace waits are "
+             "over. The three reconcile models are compared with the real reconcilers on deleting objects in every phase.",
+        note="The TrafficRouting controller model found F7 (finalizer removed before the cleanup ran), repaired in /repo. Faults between teardown calls are covered as 'any "
+             "persisted state' plus one injected gateway error, not as an error at every API call.",
         design_ref="DESIGN.md section 9, C18"),
     "C11": dict(
         text="Proof: for one BatchRelease reconcile on a partition-style CloneSet and for EVERY spec, persisted status and workload observation: Ready is entered only when "
